@@ -71,6 +71,12 @@ FlagTok(name, short) == (IF short THEN <<Dash>> ELSE <<Dash, Dash>>) \o name
 
 Extract(ty, g) == ExtractTable[ty][g]      \* <<>> or <<rendered value>>
 
+(* Values.  Every value position holds a record, so that two values of different shape are
+   merely unequal (TLC refuses to compare a string with a record):
+     leaf [s |-> "i:5"], optional [o |-> <<>> or <<v>>], vector [v |-> <<..>>],
+     sum [left |-> rec] / [right |-> rec], result record = function from labels to values. *)
+Leaf(x) == [s |-> x]
+
 -----------------------------------------------------------------------------
 (* states *)
 InitState(argv) == [i \in 1..Len(argv) |-> [idx |-> i, tok |-> argv[i]]]
@@ -179,13 +185,13 @@ FlagCore(p, st) ==
 
 RunFlag(p, st, active, inactive) ==
   LET c == FlagCore(p, st) IN
-  IF c.both THEN Other ELSE Ok(c.st, (p.label :> (IF c.found THEN active ELSE inactive)), c.used)
+  IF c.both THEN Other ELSE Ok(c.st, (p.label :> Leaf(IF c.found THEN active ELSE inactive)), c.used)
 
 (* unit_switch_impl.hpp: a switch that has to be there; otherwise a missing error carrying the state *)
 RunUnitSwitch(p, st) ==
   LET c == FlagCore(p, st) IN
   IF c.both THEN Other
-  ELSE IF c.found THEN Ok(c.st, (p.label :> "unit"), c.used) ELSE Miss(c.st, {})
+  ELSE IF c.found THEN Ok(c.st, (p.label :> Leaf("unit")), c.used) ELSE Miss(c.st, {})
 
 (* detail/use_option.cpp: first occurrence of the name; last token -> missing option argument;
    otherwise the name and its successor are removed *)
@@ -203,12 +209,12 @@ RunOption(p, st) ==
       s == IF p.short = <<>> THEN [r |-> "none", st |-> l.st]
            ELSE UseOption(p, l.st, FlagTok(p.short[1], TRUE), Len(st))
       conv(f) == LET e == Extract(p.ty, f.val) IN
-                 IF e = <<>> THEN Other ELSE Ok(s.st, (p.label :> e[1]), f.used)
+                 IF e = <<>> THEN Other ELSE Ok(s.st, (p.label :> Leaf(e[1])), f.used)
   IN CASE l.r = "noarg" \/ s.r = "noarg" -> Other
        [] l.r = "found" /\ s.r = "found" -> Other
        [] l.r = "found" -> conv(l)
        [] s.r = "found" -> conv(s)
-       [] OTHER -> IF p.default = <<>> THEN Miss(st, {}) ELSE Ok(st, (p.label :> p.default[1]), {})
+       [] OTHER -> IF p.default = <<>> THEN Miss(st, {}) ELSE Ok(st, (p.label :> Leaf(p.default[1])), {})
 
 (* argument_impl.hpp, detail/pop_arg.cpp *)
 RunArgument(p, st, ctx) ==
@@ -216,7 +222,7 @@ RunArgument(p, st, ctx) ==
   IF k = 0 THEN Miss(st, {})
   ELSE LET e == Extract(p.ty, st[k].tok) IN
        IF e = <<>> THEN Other
-       ELSE Ok(RemoveAt(st, k), (p.label :> e[1]), {U(p, st[k].idx, "arg", Len(st), ctx)})
+       ELSE Ok(RemoveAt(st, k), (p.label :> Leaf(e[1])), {U(p, st[k].idx, "arg", Len(st), ctx)})
 
 RECURSIVE Run(_, _, _), ManyLoop(_, _, _, _, _)
 
@@ -253,7 +259,7 @@ Run(p, st, ctx) ==
     [] p.k = "switch" -> RunFlag(p, st, "b:1", "b:0")
     [] p.k = "unit_switch" -> RunUnitSwitch(p, st)
     [] p.k = "option" -> RunOption(p, st)
-    [] p.k = "unit" -> IF st = <<>> THEN Ok(st, (p.label :> "unit"), {}) ELSE Other
+    [] p.k = "unit" -> IF st = <<>> THEN Ok(st, (p.label :> Leaf("unit")), {}) ELSE Other
     [] p.k = "optional" ->
          (* optional_impl.hpp: a missing error becomes "all labels nothing" and parsing continues
             from the state CARRIED BY THE ERROR (what a sub-parser consumed before the missing
